@@ -16,7 +16,9 @@ REQUIREMENT = ("the callback receives one object of the family's class whose fie
                "expected_bcast): OFF reports power 0, amps 0.0 and remaining 00:00:00; type-2 MAC at bytes 81-86")
 TYPES = [t.name for t in DeviceType]
 DIRS = ["SHUTTER_STOP", "SHUTTER_UP", "SHUTTER_DOWN"]
-NAME_CHARS = ["abcXYZ 09_", "אבגדה ", "éüñß", "😀🚀", "aé😀א"]
+NAME_CHARS = ["abcXYZ 09_", "אבגדה ", "éüñß", "😀🚀", "aé😀א",
+              "e\u0301a\u0308\u2126\u212b\u1100\u1161\ufb01",        # well-formed UTF-8 that is not in NFC / NFKC form: the name is the device's, untouched
+              "\u200e\u00a0\t~\x7f\u3000"]                                 # marks, no-break and ideographic spaces, controls
 
 
 def show(dev):
@@ -46,6 +48,7 @@ def impl(d):
     return show(got[0]) if len(got) == 1 else "delivered %d devices" % len(got)
 
 
+ID_POOL = [b"\xaa\xaa\xaa", b"\x00\x00\x01", b"\x12\x34\x56"]
 def rand_name(rnd, nbytes=None):
     alph = rnd.choice(NAME_CHARS); s = b""
     limit = rnd.randrange(0, 33) if nbytes is None else nbytes
@@ -62,7 +65,8 @@ def rand_desc(rnd, ty=None, on=None, nbytes=None):
     rem = rnd.choice([0, 1, 59, 3600, 86399, rnd.randrange(86400)])
     if not on and rnd.random() < .5:                 # a device that is off may carry anything in its countdown field
         rem = rnd.choice([86400, 86401, 90000, 2 ** 31, 2 ** 32 - 1, rnd.randrange(86400, 2 ** 32)])
-    return [ty or rnd.choice(TYPES), on, world.rand_bytes(rnd, 3), rnd.randrange(256), rand_name(rnd, nbytes),
+    dev_id = world.rand_bytes(rnd, 3) if rnd.random() < .7 else rnd.choice(ID_POOL)       # some ids recur with other addresses, names, families
+    return [ty or rnd.choice(TYPES), on, dev_id, rnd.randrange(256), rand_name(rnd, nbytes),
             world.rand_bytes(rnd, 4), world.rand_bytes(rnd, 6), rnd.choice([0, 1, 219, 220, 2600, 65535, rnd.randrange(65536)]),
             rem, rnd.choice([0, 3600, 86399, rnd.randrange(86400)]),
             rnd.choice([0, 1, 99, 100, rnd.randrange(101)]), rnd.choice(DIRS), rnd.choice(world.MODE_NAMES), rnd.choice([0, 255, 256, 65535, rnd.randrange(1000)]),
